@@ -245,21 +245,22 @@ def expectMap (P : Params) (cfg : Cfg) (s : Src) (l : Leaf) (vt : Ty) (isPtr : B
   let wrap := fun v => if isPtr then Val.ptr v else v
   let full := l.keys.headD []
   let es := mapEntries s full
-  if cfg.maxMap > 0 && es.length > cfg.maxMap then { oks := [], errs := [.mapSize] }
-  else if es.any (fun e => e.1.isNone) then { oks := [], errs := [.conv] }
-  else
-    let src : List (Bytes × Bytes) :=
-      if !es.isEmpty then es.filterMap (fun e => e.1.map (·, e.2))
-      else match present s full with
-        | some (v :: _) => ((P v).j).getD []
-        | _ => []
-    match vt with
-    | .prim p =>
-      let ds := src.map fun e => (e.1, denote P cfg p e.2)
-      { oks := (allSome (ds.map fun e => e.2.val.map (e.1, ·))).toList.map
+  let badKey := es.any (fun e => e.1.isNone)
+  -- the entries: dot/bracket keys, or — when there are none — a JSON object under the bare key
+  let src : List (Bytes × Bytes) :=
+    if !es.isEmpty then es.filterMap (fun e => e.1.map (·, e.2))
+    else match present s full with
+      | some (v :: _) => ((P v).j).getD []
+      | _ => []
+  let tooMany := cfg.maxMap > 0 && (es.length > cfg.maxMap || src.length > cfg.maxMap)
+  match vt with
+  | .prim p =>
+    let ds := src.map fun e => (e.1, denote P cfg p e.2)
+    { oks := if tooMany || badKey then [] else
+               (allSome (ds.map fun e => e.2.val.map (e.1, ·))).toList.map
                  (fun kvs => some (wrap (.map (kvs.foldl (fun m e => insertKV e.1 e.2 m) m0)))),
-        errs := if ds.any (·.2.refusable) then [.conv] else [] }
-    | _ => if src.isEmpty then { oks := [none], errs := [] } else { oks := [], errs := [.conv] }
+      errs := (if tooMany then [.mapSize] else []) ++ (if badKey || ds.any (·.2.refusable) then [.conv] else []) }
+  | _ => if src.isEmpty && !badKey then { oks := [none], errs := [] } else { oks := [], errs := [.conv] }
 
 /-- follow a path of field indices through structs and pointers (`none`: a nil pointer on the way) -/
 def valAt : Val → List Nat → Option Val
